@@ -313,6 +313,9 @@ def work_in_tmp_dir(
                 logger.info("           ...done")
 
                 for filename in os.listdir(tmpdir_path):
+                    if not os.path.isfile(os.path.join(tmpdir_path, filename)):
+                        continue  # Only files are kept
+
                     if any([filename.endswith(ext) for ext in kept_file_exts]):
                         logger.info(f"Copying back {filename}")
                         shutil.copy(
